@@ -316,9 +316,20 @@ class Program:
 
             def visit_If(self, node):
                 self.generic_visit(node)
-                if isinstance(node.test, ast.UnaryOp) and isinstance(node.test.op, ast.Not) and node.orelse and \
-                        not (len(node.orelse) == 1 and isinstance(node.orelse[0], ast.If)):
+                plain_else = node.orelse and not (len(node.orelse) == 1 and isinstance(node.orelse[0], ast.If))
+                if isinstance(node.test, ast.UnaryOp) and isinstance(node.test.op, ast.Not) and plain_else:
                     node.test, node.body, node.orelse = node.test.operand, node.orelse, node.body
+                elif isinstance(node.test, ast.Compare) and len(node.test.ops) == 1 and plain_else:
+                    # canonical polarity of a two-way branch: the test is the "positive" comparison
+                    op = type(node.test.ops[0])
+                    c = node.test
+                    if op is ast.LtE:      # a <= b  ==  not (b < a)
+                        node.test = ast.copy_location(ast.Compare(left=c.comparators[0], ops=[ast.Lt()], comparators=[c.left]), c)
+                        node.body, node.orelse = node.orelse, node.body
+                    elif op in (ast.NotEq, ast.NotIn, ast.IsNot):
+                        pos = {ast.NotEq: ast.Eq, ast.NotIn: ast.In, ast.IsNot: ast.Is}[op]
+                        node.test = ast.copy_location(ast.Compare(left=c.left, ops=[pos()], comparators=c.comparators), c)
+                        node.body, node.orelse = node.orelse, node.body
                 return node
 
         for m in self.modules.values():
